@@ -155,6 +155,8 @@ def run(tier, seed, replay=None):
     dirs, _ = workload.materialise(projs, "c20", seed=seed)
     bp = probe.build_probe()
     outs = probe.run_parallel(bp, [{"id": i, "dir": d} for i, d in enumerate(dirs)])
+    required = probe.required_keys()
+    res.extra["required_keys_oracle"] = required
     for i, (p, lab) in enumerate(zip(projs, labels)):
         o = outs.get(i, {"outcome": "lost"})
         try:
@@ -176,8 +178,17 @@ def run(tier, seed, replay=None):
                 res.violation("C20/%s-data-%s/%s" % (fam, "missing" if want else "requested-but-unused", "+".join(sorted(k for w, k in lab)) or "none"),
                               "placements=%s: model says %s %s, helper requested keys %s" % (lab, fam, "used" if want else "not used", sorted(keys)),
                               {"project": gen.project_to_jsonable(p), "placements": lab, "icu_keys": sorted(keys)})
+        # used => every key ICU4X demands from a provider for that family's formatter is requested (the list comes from the
+        # markers in the bounds of ICU4X's own `try_new_unstable` constructors, see harness/runtime_probe/src/required.rs)
+        for fam in sorted(used):
+            res.ev()
+            missing = [k for k in required[fam] if k not in keys]
+            if missing:
+                res.violation("C20/%s-formatter-needs-key-not-requested/%s" % (fam, "+".join(missing)),
+                              "placements=%s: %s is used, ICU4X needs %s to build its formatter, helper requested %s" % (lab, fam, required[fam], sorted(keys)),
+                              {"project": gen.project_to_jsonable(p), "placements": lab, "icu_keys": sorted(keys), "missing": missing})
         res.ev()
-        want_dec = bool({"nums", "datetime"} & used)
+        want_dec = bool({"nums", "datetime", "currency"} & used)
         if want_dec != ("decimal/symbols@1" in keys):
             res.violation("C20/decimal-symbols-%s" % ("missing" if want_dec else "requested-but-unused"), "placements=%s keys=%s" % (lab, sorted(keys)),
                           {"project": gen.project_to_jsonable(p)})
@@ -194,6 +205,7 @@ def run(tier, seed, replay=None):
         if lab:
             res.sample({"placements": lab, "families_used": sorted(used), "marker_keys_present": sorted(m for m in MARKERS.values() if m in keys)}, limit=6)
     res.extra["projects"] = n
-    res.assumptions += ["marker data keys identify a family (plurals/cardinal@1, list/and@1, datetime/timesymbols@1, currency/essentials@1; decimal/symbols@1 <=> number or datetime)",
+    res.assumptions += ["marker data keys identify a family (plurals/cardinal@1, list/and@1, datetime/timesymbols@1, currency/essentials@1; decimal/symbols@1 <=> number, currency or datetime)",
+                        "the keys a family needs are the KEYs of the markers in the bounds of ICU4X's try_new_unstable constructors (compile-checked in the probe)",
                         "actually generating a data provider needs CLDR sources from the network: only the requested key set is checked"]
     return res.finish(min_events=500)
